@@ -13,6 +13,19 @@ import (
 	"verifharness/gen/modelgen"
 )
 
+// EvalNormKey removes the leading dot a full name gets when the package is empty (".Greeter.greet"): the
+// statement does not fix how a default-package method is spelled, only that caller side and declaring side
+// agree, so keys are compared without it.
+func EvalNormKey(k string) string { return strings.TrimPrefix(k, ".") }
+
+func evalNormCounts(m map[string]int) map[string]int {
+	out := map[string]int{}
+	for k, v := range m {
+		out[EvalNormKey(k)] += v
+	}
+	return out
+}
+
 // EvalCallCounts: declared method full name -> number of recorded call entries whose full name equals it.
 // Methods without such an entry have no key.
 func EvalCallCounts(m *modelgen.Model) map[string]int {
@@ -34,19 +47,24 @@ func EvalCallCounts(m *modelgen.Model) map[string]int {
 // EvalCheckCallMap compares an observed reference-count map with the model.
 func EvalCheckCallMap(m *modelgen.Model, got map[string]int) []Mismatch {
 	var out []Mismatch
-	want := EvalCallCounts(m)
-	declared := m.Declared()
+	want := evalNormCounts(EvalCallCounts(m))
+	got = evalNormCounts(got)
+	declared := map[string]bool{}
+	for k := range m.Declared() {
+		declared[EvalNormKey(k)] = true
+	}
 	callers := map[string]map[string]bool{}
 	places := map[string]map[string]bool{} // distinct (caller, line) places per callee
 	for _, me := range m.Methods() {
 		for _, c := range me.Calls {
 			if c.Class != "" {
-				if callers[c.Full()] == nil {
-					callers[c.Full()] = map[string]bool{}
-					places[c.Full()] = map[string]bool{}
+				k := EvalNormKey(c.Full())
+				if callers[k] == nil {
+					callers[k] = map[string]bool{}
+					places[k] = map[string]bool{}
 				}
-				callers[c.Full()][me.Full()] = true
-				places[c.Full()][fmt.Sprintf("%s:%d", me.Full(), c.Line)] = true
+				callers[k][me.Full()] = true
+				places[k][fmt.Sprintf("%s:%d", me.Full(), c.Line)] = true
 			}
 		}
 	}
@@ -54,7 +72,11 @@ func EvalCheckCallMap(m *modelgen.Model, got map[string]int) []Mismatch {
 		g, ok := got[k]
 		switch {
 		case !ok:
-			out = append(out, Mismatch{"count-called-method-missing", fmt.Sprintf("%q has %d call site(s) in the model but no entry in the count map", k, want[k])})
+			sig := "count-called-method-missing"
+			if evalDefaultPkg(k) {
+				sig = "count-called-method-missing-default-package"
+			}
+			out = append(out, Mismatch{sig, fmt.Sprintf("%q has %d call site(s) in the model but no entry in the count map", k, want[k])})
 		case g < want[k]:
 			sig := "count-too-low"
 			if g == len(callers[k]) {
@@ -71,7 +93,7 @@ func EvalCheckCallMap(m *modelgen.Model, got map[string]int) []Mismatch {
 		if _, ok := want[k]; ok {
 			continue
 		}
-		if _, ok := declared[k]; ok {
+		if declared[k] {
 			out = append(out, Mismatch{"count-never-called-method-present", fmt.Sprintf("%q is declared but never called, yet the count map has %q: %d", k, k, got[k])})
 		} else {
 			out = append(out, Mismatch{"count-undeclared-name-present", fmt.Sprintf("count map has %q: %d, which is no declared method of the model", k, got[k])})
@@ -107,23 +129,29 @@ func EvalCountsFromRecords(declared []string, calls []EvalCallRecord) map[string
 // line gets its own signature.
 func EvalCheckRecordedCounts(declared []string, calls []EvalCallRecord, got map[string]int) []Mismatch {
 	var out []Mismatch
-	want := EvalCountsFromRecords(declared, calls)
+	want := evalNormCounts(EvalCountsFromRecords(declared, calls))
+	got = evalNormCounts(got)
 	isDecl := map[string]bool{}
 	for _, d := range declared {
-		isDecl[d] = true
+		isDecl[EvalNormKey(d)] = true
 	}
 	perLine := map[string]map[string]bool{}
 	for _, c := range calls {
-		if perLine[c.Callee] == nil {
-			perLine[c.Callee] = map[string]bool{}
+		k := EvalNormKey(c.Callee)
+		if perLine[k] == nil {
+			perLine[k] = map[string]bool{}
 		}
-		perLine[c.Callee][fmt.Sprintf("%s:%d", c.Caller, c.Line)] = true
+		perLine[k][fmt.Sprintf("%s:%d", c.Caller, c.Line)] = true
 	}
 	for _, k := range evalSortedIntKeys(want) {
 		g, ok := got[k]
 		switch {
 		case !ok:
-			out = append(out, Mismatch{"count-called-method-missing", fmt.Sprintf("%q has %d recorded call site(s) but no entry in the count map", k, want[k])})
+			sig := "count-called-method-missing"
+			if evalDefaultPkg(k) {
+				sig = "count-called-method-missing-default-package"
+			}
+			out = append(out, Mismatch{sig, fmt.Sprintf("%q has %d recorded call site(s) but no entry in the count map", k, want[k])})
 		case g < want[k]:
 			sig := "count-too-low"
 			if g == len(perLine[k]) {
@@ -259,12 +287,12 @@ func EvalCheckSummary(p *evalgen.Project, got EvalSummary) []Mismatch {
 	byPath := map[string]*evalgen.Method{}
 	for _, c := range p.Classes {
 		for _, m := range c.Methods {
-			byPath[EvalMethodPath(c, m)] = m
+			byPath[EvalNormKey(EvalMethodPath(c, m))] = m
 		}
 	}
 	seen := map[string]int{}
 	for _, it := range got.Nullable {
-		seen[it]++
+		seen[EvalNormKey(it)]++
 	}
 	for _, it := range evalSortedIntKeys(seen) {
 		m, ok := byPath[it]
@@ -305,6 +333,7 @@ func EvalCheckSummary(p *evalgen.Project, got EvalSummary) []Mismatch {
 		}
 	}
 	for _, it := range want.Nullable {
+		it = EvalNormKey(it)
 		if seen[it] > 0 {
 			continue
 		}
@@ -385,6 +414,9 @@ func EvalCheckConcept(cc *evalgen.ConceptCase, reported []EvalPair) []Mismatch {
 	return []Mismatch{{sig, fmt.Sprintf("word counts sum to %d; the method names %v contain %d words that are neither stop words (%d) nor digit groups (%d); report: %v",
 		sum, cc.Names(), want, stops, digits, reported)}}
 }
+
+// evalDefaultPkg: a normalised method full name Class.method without any package part.
+func evalDefaultPkg(k string) bool { return strings.Count(k, ".") == 1 }
 
 func evalSortedKeys(m map[string]int) []string { return evalSortedIntKeys(m) }
 
